@@ -5,6 +5,7 @@ import DW.Generated.Tables
 import DW.Model.Dump
 import DW.Lemmas.RoundTrip
 import DW.Lemmas.GenDumpSem
+import DW.Lemmas.GenDumpRefine
 
 namespace DW.Props.C11
 open DW
@@ -237,6 +238,36 @@ theorem C11_generated_code_selects_env (p : Char → Bool) (eff : MetaCfg) (args
     run (envOf eff args fks vals) (genBody p (ginOf eff fks)) =
       .ok (refSelection eff args vals fks ++ tagEmits (ginOf eff fks)) :=
   C11_generated_code_selects p _ eff args fks vals (world_envOf p eff args fks vals) Hd Ho
+
+open DW.GenDump in
+/-- **The dump model is the generated code.**  The behavioural field loop `dumpFields` — the definition the round-trip (C01, C02),
+wire-encoding / JSON-safety (C03), catch-all (C10) and tagged-union (C13) theorems are about — is not only a transcription: for
+any class (fields found by name, resolved dump keys `k`), Meta, arguments and instance whose skip comparisons do not raise, it
+returns exactly what one gets by running the body the generator writes (the text compared byte for byte with the library's
+output) and applying `asdict` to the entries that run emits, in order. -/
+theorem C11_dump_model_realises_generated_code (p : Char → Bool) (std : Std) (ts : Bool) (cfg : Option MetaCfg)
+    (eff : MetaCfg) (args : DumpArgs) (ci : ClassInfo) (fks : List (FieldInfo × S)) (vals : S → PyVal)
+    (hfind : ∀ q ∈ fks, ci.fields.find? (fun f => f.name == q.1.name) = some q.1)
+    (Hd : ∀ q ∈ fks, ∃ b, defaultTest eff q.1 (vals q.1.name) = .ok b)
+    (Ho : ∀ q ∈ fks, ∃ b, ownCond eff q.1 (vals q.1.name) = .ok b)
+    (Hk : ∀ q ∈ fks, q.1.isCatchAll = false → q.1.dumpSkip = false → dumpKey eff q.1 = .ok q.2) :
+    ∃ out, run (envOf eff args fks vals) (genBody p (ginOf eff fks)) = .ok (out ++ tagEmits (ginOf eff fks)) ∧
+      dumpFields std ts cfg eff args ci (fks.map (fun q => (q.1.name, vals q.1.name))) = realise std ts cfg vals out := by
+  have Hd' : ∀ q ∈ fks, defaultTest eff q.1 (vals q.1.name) = .ok (defaultTestRef eff q.1 (vals q.1.name)) := by
+    intro q hq
+    obtain ⟨b, hb⟩ := Hd q hq
+    rw [hb, defaultTest_ok eff q.1 _ b hb]
+  have Ho' : ∀ q ∈ fks, ownCond eff q.1 (vals q.1.name) = .ok (ownCondRef eff q.1 (vals q.1.name)) := by
+    intro q hq
+    obtain ⟨b, hb⟩ := Ho q hq
+    rw [hb, ownCond_ok eff q.1 _ b hb]
+  refine ⟨fks.flatMap (refEmitOf eff args (fun fi => defaultTestRef eff fi (vals fi.name))
+    (fun fi => ownCondRef eff fi (vals fi.name)) vals), ?_, ?_⟩
+  · rw [run_genBody p _ eff args fks vals (world_envOf p eff args fks vals)
+        (fun fi => defaultTestRef eff fi (vals fi.name)) (fun fi => ownCondRef eff fi (vals fi.name)) Hd' Ho',
+      emitsFrom_eq eff args fks _ _ vals fks 0 (by simp)]
+    rfl
+  · exact dumpFields_eq_realise std ts cfg eff args ci vals _ _ fks hfind Hd' Ho' Hk
 
 namespace Example
 open DW.GenDump
